@@ -25,10 +25,12 @@ let http_conn_items (chunks : n list list) =
 (* steps of the harness line syntax: S:<hex> / s:<hex> are the segments, everything else is ignored *)
 let segs steps = List.filter_map (fun s -> if String.length s >= 2 && (s.[0] = 'S' || s.[0] = 's') && s.[1] = ':' then Some (String.sub s 2 (String.length s - 2)) else None) steps
 let chunks_of steps = List.filter (fun c -> c <> []) (List.map bytes_of_hex (segs steps))
+(* some_headers_data_read never reads more than 16384 bytes at once: a larger segment reaches the parser in pieces *)
+let rec split16k c = if List.length c <= 16384 then [c] else take 16384 c :: split16k (drop 16384 c)
 (* SCGI and FastCGI run the chunk-level readers (Chunked.v) on the real segments; Props.v proves them equal to the
    stream-level decoders on the concatenation *)
 let () = main_loop (fun line -> match line with
-  | "http" :: steps -> String.concat " | " (http_conn_items (chunks_of steps))
+  | "http" :: steps -> String.concat " | " (http_conn_items (List.concat_map split16k (chunks_of steps)))
   | "scgi" :: steps ->
     (match scgi_decode_c (cache_of (chunks_of steps)) with
      | ScNeedMore -> "NEEDMORE" | ScError -> "ERR"
@@ -47,4 +49,11 @@ let () = main_loop (fun line -> match line with
         if int_of_z v.v_clen < 0 then "NEG400" else if int_of_z v.v_clen > cl_limit_i then "BIG413" else show_view v body
       | FIErr -> "ERR" | FIOther -> "OTHER" | FINeedMore -> "NEEDMORE" | FIFuel -> "FUEL" in
     String.concat " | " (List.map show (fcgi_conn_c (nat_of_int (total / 8 + 2)) (cache_of chunks)))
+  | "pool" :: ops ->
+    let op s = if s = "c" then OClear else
+        let n = int_of_string (String.sub s 1 (String.length s - 1)) in
+        OAlloc (n_of_int (if s.[0] = 's' then n + 1 else n)) in
+    let tr = pool_run (List.map op ops) pool0 in
+    if tr = [] then "-" else
+    String.concat " " (List.map (fun (((i, off), n), cap) -> Printf.sprintf "%d:%d:%d:%d" (int_of_nat i) (int_of_n off) (int_of_n n) (int_of_n cap)) tr)
   | _ -> "BAD-CASE")
